@@ -2,7 +2,7 @@
 (* C03: documents over the geometry vocabulary.  A state is a token prefix; *)
 (* closing every open container makes it a complete document, rendered by   *)
 (* DocCore under the caller configuration cfg.                              *)
-EXTENDS Rat, Sequences, TLC
+EXTENDS Rat, Sequences, TLC, Json, IOUtils
 CONSTANTS MaxTok, Full
 VARIABLES doc, cfg, out
 vars == <<doc, cfg, out>>
@@ -19,6 +19,7 @@ MyTF(k) == CASE k = 0 -> AF!Id
              [] k = 4 -> AF!Skew(Q(3, 4), RZero)                        \* skewX(atan 3/4)
              [] k = 5 -> AF!Scale(I(-1), I(1))
              [] k = 6 -> AF!Then(AF!Scale(I(2), I(3)), AF!Rotate(Q(3, 5), Q(4, 5)))
+             [] k = 7 -> AF!Scale(I(-2), I(3))
 \* path data table (segments in the PathInterp vocabulary)
 P(x, y) == <<I(x), I(y)>>
 MyPathGeo(k) == CASE k = 1 -> << <<"M", <<>>, <<>>, <<>>, P(0, 0)>>, <<"L", P(0, 0), <<>>, <<>>, P(10, 0)>>,
@@ -76,6 +77,10 @@ Next == /\ Len(doc) < MaxTok
              /\ doc' = Append(doc, t)
         /\ UNCHANGED cfg
         /\ out' = RenderDoc(Close(doc'), cfg, <<>>)
+\* generated documents: the harness draws closed documents (harness/docgen.py) and TLC evaluates the rendering
+GenDocs == JsonDeserialize(IOEnv.DOCS_FILE)
+InitGen == \E i \in 1..Len(GenDocs) : doc = GenDocs[i].doc /\ cfg = GenDocs[i].cfg /\ out = RenderDoc(GenDocs[i].doc, GenDocs[i].cfg, <<>>)
+NextGen == FALSE /\ UNCHANGED vars
 \* simulation mode (deeper documents than the exhaustive bound): every behaviour emits its documents of these lengths
 Emit == (Len(doc) = MaxTok \/ 2 * Len(doc) = MaxTok + 2) => PrintT(<<"CASE", doc, cfg, out>>)
 \* ---- laws of the specification -------------------------------------------
